@@ -1,5 +1,6 @@
 import Pun.Model.MixedUp
 import Pun.Props.C13
+import Pun.Props.C08
 import Mathlib.Data.List.Nodup
 import Mathlib.Data.List.Basic
 /-!
@@ -7,11 +8,14 @@ import Mathlib.Data.List.Basic
 
 About the functions the driver executes: `Pun.MixedUp.levelTuples`, `gridLevels`,
 `alphaCut`, `cutBox`, `propagate`, `slicing`, `imc`.
+`stackOut`, `slicingPbox`, `imcPbox` (the p-box handed back: the C08 model `Pun.Dss.stacking` of the focal list).
 Reproducibility of interval Monte Carlo is a runtime fact about the copula
 sampler (tested by the harness), not a theorem: in the model the sample is an input.
 -/
 set_option linter.unusedSimpArgs false
 set_option linter.unusedVariables false
+set_option linter.unusedTactic false
+set_option linter.unreachableTactic false
 namespace Pun.MixedUp
 open Pun Pun.Arith Pun.Expr Pun.B2B
 
@@ -220,7 +224,7 @@ interval image of any box containing the cuts — in particular of the box of in
 theorem support_within_image_direct (φ : UFun → Rat → Rat) (hφ : Mono φ) (e : Expr) (cut sup : Box)
     (hsub : SubBox cut sup) (r V : Val) (hr : direct φ e cut = .ok r) (hV : direct φ e sup = .ok V) :
     V.lo ≤ r.lo ∧ r.hi ≤ V.hi :=
-  (direct_isotone_partial φ hφ e cut sup hsub r V hr hV).1
+  (direct_incl_of_ok φ hφ e cut sup hsub r V hr hV).1
 
 /-- every alpha-cut of a p-box with sorted bounds lies inside its support `[left[0], right[last]]`
 (stated for the cut index: any valid index gives a sub-interval when `left`, `right` are sorted) -/
@@ -244,5 +248,368 @@ theorem cut_within_support (l r : List Rat) (hl : l.Pairwise (· ≤ ·)) (hr : 
       exact this
     · have : i = r.length - 1 := by omega
       subst this; rw [hy] at hN; cases hN; exact le_refl _
+
+/-! ## zero width for every strategy -/
+
+theorem b2b_deterministic {α : Type} {a b : α} {x : Except Err α} (h1 : x = .ok a) (h2 : x = .ok b) : a = b := by
+  rw [h1] at h2; exact Except.ok.inj h2
+
+/-- ★ all three strategies return a zero-width interval on a zero-width box (C01 operations preserve zero width;
+exponents at least 1, see `PosPow`) -/
+theorem b2b_degenerate (φ : UFun → Rat → Rat) (e : Expr) (hp : PosPow e) (form : Form) (box : Box)
+    (hd : ∀ p ∈ box, p.1 = p.2) (s : Strategy) (style : Option Style) (n : Option Nat) (V : Val)
+    (h : b2b φ e form box s style n = .ok V) : V.lo = V.hi := by
+  unfold b2b at h
+  split at h
+  · cases h
+  · cases s with
+    | direct => exact evalIvl_degenerate φ e hp box hd V h
+    | endpoints => exact endpoints_degenerate φ e box hd V h
+    | unknown => cases h
+    | subinterval =>
+      simp only at h
+      unfold subinterval at h
+      split at h
+      · cases h
+      · cases h
+      · rename_i m
+        simp only [bind, Except.bind] at h
+        split at h
+        · cases h
+        · rename_i rs hrs
+          have hall := mapM_ok _ _ _ hrs
+          obtain ⟨_, ⟨r1, hr1, e1⟩, ⟨r2, hr2, e2⟩⟩ := reconstitute_spec h
+          obtain ⟨t1, ht1, het1⟩ := forall₂_right hall r1 hr1
+          obtain ⟨t2, ht2, het2⟩ := forall₂_right hall r2 hr2
+          rw [tiles_degenerate box m hd t1 ht1] at het1
+          rw [tiles_degenerate box m hd t2 ht2] at het2
+          have : r1 = r2 := b2b_deterministic het1 het2
+          subst this
+          rw [← e1, ← e2]
+          exact evalIvl_degenerate φ e hp box hd r1 het1
+      · rename_i m
+        simp only [bind, Except.bind] at h
+        split at h
+        · cases h
+        · rename_i rs hrs
+          have hall := mapM_ok _ _ _ hrs
+          obtain ⟨_, ⟨r1, hr1, e1⟩, ⟨r2, hr2, e2⟩⟩ := reconstitute_spec h
+          obtain ⟨t1, ht1, het1⟩ := forall₂_right hall r1 hr1
+          obtain ⟨t2, ht2, het2⟩ := forall₂_right hall r2 hr2
+          rw [tiles_degenerate box m hd t1 ht1] at het1
+          rw [tiles_degenerate box m hd t2 ht2] at het2
+          have : r1 = r2 := b2b_deterministic het1 het2
+          subst this
+          rw [← e1, ← e2]
+          exact endpoints_degenerate φ e box hd r1 het1
+
+/-- the box of cuts of precise inputs (`left = right`) has zero width -/
+theorem cutBox_degenerate (pv : List Rat) (vars : List PB) (hP : ∀ P ∈ vars, P.left = P.right) (row : List Rat)
+    (box : Box) (h : cutBox pv vars row = .ok box) : ∀ p ∈ box, p.1 = p.2 := by
+  have hall := mapM_ok _ _ _ h
+  intro p hp
+  obtain ⟨va, hva, hcut⟩ := forall₂_right hall p hp
+  exact precise_cut_degenerate pv va.1 (hP va.1 (List.of_mem_zip hva).1) va.2 p hcut
+
+/-- ★ all inputs precise: every focal element handed to `stacking` has zero width, for slicing and interval
+Monte Carlo alike and for every interval strategy -/
+theorem all_precise_focal_degenerate (φ : UFun → Rat → Rat) (e : Expr) (hp : PosPow e) (pv : List Rat) (vars : List PB)
+    (hP : ∀ P ∈ vars, P.left = P.right) (levels : List (List Rat)) (s : Strategy) (style : Option Style) (n : Option Nat)
+    (out : List Val) (h : propagate φ e pv vars levels s style n = .ok out) : ∀ v ∈ out, v.lo = v.hi := by
+  have hall := mapM_ok _ _ _ h
+  intro v hv
+  obtain ⟨row, _, hr⟩ := forall₂_right hall v hv
+  simp only [bind, Except.bind] at hr
+  split at hr
+  · cases hr
+  · rename_i box hbox
+    exact b2b_degenerate φ e hp .list box (cutBox_degenerate pv vars hP row box hbox) s style n v hr
+
+/-! ## the returned p-box: `stacking` of the focal list (C08 model `Pun.Dss.stacking`) -/
+
+open Pun.Grid Pun.Dss Pun.Props.C08 in
+/-- `weights=None` is the equal-mass call -/
+theorem stacking_none (g lo hi : List Rat) :
+    Dss.stacking g lo hi none = Dss.stacking g lo hi (some (Grid.equalW lo.length)) := by
+  unfold Dss.stacking Dss.weightsOf
+  rfl
+
+/-- empirical distribution function of a list with equal weights -/
+def ecdf (l : List Rat) (t : Rat) : Rat := (1 / (l.length : Rat)) * (l.countP (fun y => decide (y ≤ t)) : Nat)
+
+theorem massLE_equal (l : List Rat) : Grid.massLE (l.zip (Grid.equalW l.length)) = ecdf l := by
+  funext t
+  unfold Grid.equalW ecdf
+  rw [Props.C08.zip_replicate, Props.C08.massLE_const]
+
+/-- a focal list `stacking` accepts: at least one element, each a valid interval -/
+def FocalOK (out : List Val) : Prop := out ≠ [] ∧ ∀ v ∈ out, v.lo ≤ v.hi
+
+theorem allLE_map (out : List Val) (h : ∀ v ∈ out, v.lo ≤ v.hi) : Dss.allLE (out.map Val.lo) (out.map Val.hi) = true := by
+  induction out with
+  | nil => rfl
+  | cons v r ih =>
+    simp only [List.map_cons, Dss.allLE, Bool.and_eq_true, decide_eq_true_eq]
+    exact ⟨h v (by simp), ih (fun w hw => h w (List.mem_cons_of_mem _ hw))⟩
+
+/-- ★ the returned p-box is the equal-weight stack of the focal images: `stacking` succeeds, and at every grid
+level `p` the left bound is the generalised inverse at `p` of the empirical distribution function of the lower
+ends, the right bound that of the upper ends (smallest end whose share of the focal elements reaches `p`) -/
+theorem stackOut_geninv (g : List Rat) (hg : Props.C08.GridOK g) (out : List Val) (hok : FocalOK out) :
+    ∃ P, stackOut g out = .ok P ∧ P.left.length = g.length ∧ P.right.length = g.length ∧
+      ∀ (i : Nat) (p : Rat), g[i]? = some p → ∃ a b, P.left[i]? = some a ∧ P.right[i]? = some b ∧
+        Grid.IsGenInv (ecdf (out.map Val.lo)) p a ∧ Grid.IsGenInv (ecdf (out.map Val.hi)) p b := by
+  have hpos : 0 < out.length := List.length_pos_iff.mpr hok.1
+  have hv := Props.C08.validW_equal (out.map Val.lo) out.length (by simp) hpos
+  have := Props.C08.stacking_geninv g (out.map Val.lo) (out.map Val.hi) (Grid.equalW out.length) (by simp) hv
+    (allLE_map out hok.2) hg
+  unfold stackOut
+  rw [stacking_none]
+  simp only [List.length_map]
+  have e1 := massLE_equal (out.map Val.lo)
+  have e2 := massLE_equal (out.map Val.hi)
+  simp only [List.length_map] at e1 e2
+  rw [e1, e2] at this
+  exact this
+
+theorem ecdf_perm {l l' : List Rat} (h : l.Perm l') : ecdf l = ecdf l' := by
+  funext t
+  unfold ecdf
+  rw [h.length_eq, h.countP_eq]
+
+/-- ★ the p-box does not depend on the order in which the focal images are produced (meshgrid order, sample order) -/
+theorem stackOut_perm (g : List Rat) (hg : Props.C08.GridOK g) (out out' : List Val) (hok : FocalOK out)
+    (h : out.Perm out') : stackOut g out = stackOut g out' := by
+  have hok' : FocalOK out' := ⟨fun h0 => hok.1 (by subst h0; exact h.eq_nil), fun v hv => hok.2 v (h.mem_iff.mpr hv)⟩
+  obtain ⟨P, hP, hl, hr, hs⟩ := stackOut_geninv g hg out hok
+  obtain ⟨P', hP', hl', hr', hs'⟩ := stackOut_geninv g hg out' hok'
+  rw [hP, hP']
+  have eL : ecdf (out.map Val.lo) = ecdf (out'.map Val.lo) := ecdf_perm (h.map _)
+  have eR : ecdf (out.map Val.hi) = ecdf (out'.map Val.hi) := ecdf_perm (h.map _)
+  have e1 : P.left = P'.left := by
+    apply List.ext_getElem?
+    intro i
+    by_cases hi : i < g.length
+    · obtain ⟨a, b, ha, hb, hga, hgb⟩ := hs i g[i] (by simp [hi])
+      obtain ⟨a', b', ha', hb', hga', hgb'⟩ := hs' i g[i] (by simp [hi])
+      rw [ha, ha', hga.unique (eL ▸ hga')]
+    · rw [List.getElem?_eq_none (by omega), List.getElem?_eq_none (by omega)]
+  have e2 : P.right = P'.right := by
+    apply List.ext_getElem?
+    intro i
+    by_cases hi : i < g.length
+    · obtain ⟨a, b, ha, hb, hga, hgb⟩ := hs i g[i] (by simp [hi])
+      obtain ⟨a', b', ha', hb', hga', hgb'⟩ := hs' i g[i] (by simp [hi])
+      rw [hb, hb', hgb.unique (eR ▸ hgb')]
+    · rw [List.getElem?_eq_none (by omega), List.getElem?_eq_none (by omega)]
+  cases P; cases P'; simp_all
+
+/-- a generalised inverse of the empirical distribution function at a level in `(0,1]` lies between two sample values -/
+theorem geninv_between (l : List Rat) (hne : l ≠ []) (p a : Rat) (h0 : 0 < p) (h1 : p ≤ 1)
+    (h : Grid.IsGenInv (ecdf l) p a) : (∃ x ∈ l, x ≤ a) ∧ (∃ x ∈ l, a ≤ x) := by
+  have hn : (0 : Rat) < l.length := by exact_mod_cast List.length_pos_iff.mpr hne
+  constructor
+  · by_contra hc
+    have hc' : ∀ x ∈ l, ¬ x ≤ a := fun x hx hxa => hc ⟨x, hx, hxa⟩
+    have : l.countP (fun y => decide (y ≤ a)) = 0 := by
+      rw [List.countP_eq_zero]; intro x hx; simpa using hc' x hx
+    have hF : ecdf l a = 0 := by unfold ecdf; rw [this]; simp
+    have := h.1; rw [hF] at this; linarith
+  · obtain ⟨M, hM⟩ : ∃ M, B2B.maxL1 l = some M := by
+      cases l with
+      | nil => exact absurd rfl hne
+      | cons x xs => exact ⟨_, rfl⟩
+    obtain ⟨b1, b2⟩ := B2B.maxL1_spec hM
+    by_cases hMa : a ≤ M
+    · exact ⟨M, b2, hMa⟩
+    · exfalso
+      have hlt := h.2 M (not_le.mp hMa)
+      have : l.countP (fun y => decide (y ≤ M)) = l.length := by
+        rw [List.countP_eq_length]; intro x hx; simpa using b1 x hx
+      have hF : ecdf l M = 1 := by unfold ecdf; rw [this]; field_simp
+      rw [hF] at hlt; linarith
+
+/-- ★ every value of the left bound lies between two lower ends of focal images, every value of the right bound
+between two upper ends: the output never leaves the hull of the focal images -/
+theorem stackOut_between (g : List Rat) (hg : Props.C08.GridOK g) (out : List Val) (hok : FocalOK out) (P : Dss.PB)
+    (hP : stackOut g out = .ok P) :
+    (∀ a ∈ P.left, (∃ v ∈ out, v.lo ≤ a) ∧ (∃ v ∈ out, a ≤ v.lo)) ∧
+    (∀ b ∈ P.right, (∃ v ∈ out, v.hi ≤ b) ∧ (∃ v ∈ out, b ≤ v.hi)) := by
+  obtain ⟨P', hP', hl, hr, hs⟩ := stackOut_geninv g hg out hok
+  rw [hP] at hP'; cases hP'
+  have hne1 : out.map Val.lo ≠ [] := by simpa using hok.1
+  have hne2 : out.map Val.hi ≠ [] := by simpa using hok.1
+  constructor
+  · intro a ha
+    obtain ⟨i, hi, rfl⟩ := List.getElem_of_mem ha
+    have hig : i < g.length := by omega
+    obtain ⟨a', b', ha', hb', hga, hgb⟩ := hs i g[i] (by simp [hig])
+    rw [List.getElem?_eq_getElem hi] at ha'; cases ha'
+    obtain ⟨⟨x, hx, hxa⟩, ⟨y, hy, hya⟩⟩ := geninv_between _ hne1 g[i] _ (hg.1 _ (List.getElem_mem _)).1 (hg.1 _ (List.getElem_mem _)).2 hga
+    obtain ⟨v, hv, rfl⟩ := List.mem_map.mp hx
+    obtain ⟨w, hw, rfl⟩ := List.mem_map.mp hy
+    exact ⟨⟨v, hv, hxa⟩, ⟨w, hw, hya⟩⟩
+  · intro b hb
+    obtain ⟨i, hi, rfl⟩ := List.getElem_of_mem hb
+    have hig : i < g.length := by omega
+    obtain ⟨a', b', ha', hb', hga, hgb⟩ := hs i g[i] (by simp [hig])
+    rw [List.getElem?_eq_getElem hi] at hb'; cases hb'
+    obtain ⟨⟨x, hx, hxa⟩, ⟨y, hy, hya⟩⟩ := geninv_between _ hne2 g[i] _ (hg.1 _ (List.getElem_mem _)).1 (hg.1 _ (List.getElem_mem _)).2 hgb
+    obtain ⟨v, hv, rfl⟩ := List.mem_map.mp hx
+    obtain ⟨w, hw, rfl⟩ := List.mem_map.mp hy
+    exact ⟨⟨v, hv, hxa⟩, ⟨w, hw, hya⟩⟩
+
+/-- ★ support inside the image: if every focal image lies in `[A, B]` (e.g. the direct interval image of the input
+supports, `support_within_image_direct / _endpoints`), so does the whole returned p-box -/
+theorem pbox_within_image (g : List Rat) (hg : Props.C08.GridOK g) (out : List Val) (hok : FocalOK out) (P : Dss.PB)
+    (hP : stackOut g out = .ok P) (A B : Rat) (hA : ∀ v ∈ out, A ≤ v.lo ∧ v.hi ≤ B) :
+    (∀ a ∈ P.left, A ≤ a ∧ a ≤ B) ∧ (∀ b ∈ P.right, A ≤ b ∧ b ≤ B) := by
+  obtain ⟨h1, h2⟩ := stackOut_between g hg out hok P hP
+  constructor
+  · intro a ha
+    obtain ⟨⟨v, hv, hva⟩, ⟨w, hw, haw⟩⟩ := h1 a ha
+    exact ⟨le_trans (hA v hv).1 hva, le_trans haw (le_trans (hok.2 w hw) (hA w hw).2)⟩
+  · intro b hb
+    obtain ⟨⟨v, hv, hvb⟩, ⟨w, hw, hbw⟩⟩ := h2 b hb
+    exact ⟨le_trans (hA v hv).1 (le_trans (hok.2 v hv) hvb), le_trans hbw (hA w hw).2⟩
+
+/-- ★ all inputs intervals: every focal image is the same interval `[lo, hi]` (`all_intervals_cut`), and then the
+returned p-box is that interval at every probability level -/
+theorem all_intervals_exact (g : List Rat) (hg : Props.C08.GridOK g) (out : List Val) (hok : FocalOK out) (P : Dss.PB)
+    (hP : stackOut g out = .ok P) (lo hi : Rat) (hsame : ∀ v ∈ out, v.lo = lo ∧ v.hi = hi) :
+    (∀ a ∈ P.left, a = lo) ∧ (∀ b ∈ P.right, b = hi) := by
+  obtain ⟨h1, h2⟩ := stackOut_between g hg out hok P hP
+  constructor
+  · intro a ha
+    obtain ⟨⟨v, hv, hva⟩, ⟨w, hw, haw⟩⟩ := h1 a ha
+    rw [(hsame v hv).1] at hva; rw [(hsame w hw).1] at haw
+    exact le_antisymm haw hva
+  · intro b hb
+    obtain ⟨⟨v, hv, hvb⟩, ⟨w, hw, hbw⟩⟩ := h2 b hb
+    rw [(hsame v hv).2] at hvb; rw [(hsame w hw).2] at hbw
+    exact le_antisymm hbw hvb
+
+/-- ★ all inputs precise: zero-width focal images (`all_precise_focal_degenerate`) stack to a p-box whose two
+bounds coincide -/
+theorem all_precise_degenerate (g : List Rat) (hg : Props.C08.GridOK g) (out : List Val) (hne : out ≠ [])
+    (hdeg : ∀ v ∈ out, v.lo = v.hi) (P : Dss.PB) (hP : stackOut g out = .ok P) : P.left = P.right := by
+  have hok : FocalOK out := ⟨hne, fun v hv => le_of_eq (hdeg v hv)⟩
+  obtain ⟨P', hP', hl, hr, hs⟩ := stackOut_geninv g hg out hok
+  rw [hP] at hP'; cases hP'
+  have hmap : out.map Val.lo = out.map Val.hi := List.map_congr_left hdeg
+  apply List.ext_getElem?
+  intro i
+  by_cases hi : i < g.length
+  · obtain ⟨a, b, ha, hb, hga, hgb⟩ := hs i g[i] (by simp [hi])
+    rw [ha, hb, hga.unique (hmap ▸ hgb)]
+  · rw [List.getElem?_eq_none (by omega), List.getElem?_eq_none (by omega)]
+
+/-! ## end to end: the p-box returned by `slicing` / `interval_monte_carlo` -/
+
+theorem allLE_map_of (out : List Val) (h : Dss.allLE (out.map Val.lo) (out.map Val.hi) = true) : ∀ v ∈ out, v.lo ≤ v.hi := by
+  induction out with
+  | nil => simp
+  | cons v r ih =>
+    simp only [List.map_cons, Dss.allLE, Bool.and_eq_true, decide_eq_true_eq] at h
+    intro w hw
+    simp only [List.mem_cons] at hw
+    rcases hw with rfl | hw
+    · exact h.1
+    · exact ih h.2 w hw
+
+/-- `stacking` returns a p-box only for a non-empty list of valid intervals -/
+theorem focalOK_of_stackOut (g : List Rat) (out : List Val) (P : Dss.PB) (h : stackOut g out = .ok P) : FocalOK out := by
+  unfold stackOut Dss.stacking at h
+  simp only [List.length_map, ne_eq, not_true_eq_false, if_false] at h
+  split at h
+  · cases h
+  · rename_i hlen
+    split at h
+    · cases h
+    · rename_i hle
+      refine ⟨?_, allLE_map_of out (by simpa using hle)⟩
+      intro h0; subst h0; simp at hlen
+
+/-- ★ `slicing` returns the `stacking` (C08 model, equal masses) of one `b2b` image per level tuple -/
+theorem slicingPbox_is_stack (φ : UFun → Rat → Rat) (e : Expr) (pv : List Rat) (vars : List PB) (grid : List Rat)
+    (s : Strategy) (style : Option Style) (n : Option Nat) (P : Dss.PB)
+    (h : slicingPbox φ e pv vars grid s style n = .ok P) :
+    ∃ out, slicing φ e pv vars grid s style n = .ok out ∧
+      List.Forall₂ (fun row r => ∃ box, cutBox pv vars row = .ok box ∧ b2b φ e .list box s style n = .ok r)
+        (levelTuples grid vars.length) out ∧
+      Dss.stacking pv (out.map Val.lo) (out.map Val.hi) none = .ok P := by
+  unfold slicingPbox at h
+  simp only [bind, Except.bind] at h
+  split at h
+  · cases h
+  · rename_i out hout
+    exact ⟨out, hout, output_is_stack φ e pv vars grid s style n out hout, h⟩
+
+/-- ★ the same for interval Monte Carlo, for the level matrix that was sampled -/
+theorem imcPbox_is_stack (φ : UFun → Rat → Rat) (e : Expr) (pv : List Rat) (vars : List PB) (levels : List (List Rat))
+    (s : Strategy) (style : Option Style) (n : Option Nat) (P : Dss.PB)
+    (h : imcPbox φ e pv vars levels s style n = .ok P) :
+    ∃ out, imc φ e pv vars levels s style n = .ok out ∧
+      List.Forall₂ (fun row r => ∃ box, cutBox pv vars row = .ok box ∧ b2b φ e .list box s style n = .ok r) levels out ∧
+      Dss.stacking pv (out.map Val.lo) (out.map Val.hi) none = .ok P := by
+  unfold imcPbox at h
+  simp only [bind, Except.bind] at h
+  split at h
+  · cases h
+  · rename_i out hout
+    exact ⟨out, hout, imc_is_stack φ e pv vars levels s style n out hout, h⟩
+
+/-- ★ all inputs precise ⇒ the returned p-box has coinciding bounds (slicing; every strategy) -/
+theorem slicing_all_precise (φ : UFun → Rat → Rat) (e : Expr) (hp : PosPow e) (pv : List Rat) (hg : Props.C08.GridOK pv)
+    (vars : List PB) (hP : ∀ Q ∈ vars, Q.left = Q.right) (grid : List Rat) (s : Strategy) (style : Option Style)
+    (n : Option Nat) (P : Dss.PB) (h : slicingPbox φ e pv vars grid s style n = .ok P) : P.left = P.right := by
+  obtain ⟨out, hout, _, hst⟩ := slicingPbox_is_stack φ e pv vars grid s style n P h
+  have hok := focalOK_of_stackOut pv out P hst
+  exact all_precise_degenerate pv hg out hok.1
+    (all_precise_focal_degenerate φ e hp pv vars hP _ s style n out hout) P hst
+
+/-- ★ … and interval Monte Carlo -/
+theorem imc_all_precise (φ : UFun → Rat → Rat) (e : Expr) (hp : PosPow e) (pv : List Rat) (hg : Props.C08.GridOK pv)
+    (vars : List PB) (hP : ∀ Q ∈ vars, Q.left = Q.right) (levels : List (List Rat)) (s : Strategy) (style : Option Style)
+    (n : Option Nat) (P : Dss.PB) (h : imcPbox φ e pv vars levels s style n = .ok P) : P.left = P.right := by
+  obtain ⟨out, hout, _, hst⟩ := imcPbox_is_stack φ e pv vars levels s style n P h
+  have hok := focalOK_of_stackOut pv out P hst
+  exact all_precise_degenerate pv hg out hok.1
+    (all_precise_focal_degenerate φ e hp pv vars hP _ s style n out hout) P hst
+
+/-- ★ output support inside the interval image of the input supports (direct and vertex strategies): if every box of
+cuts lies in the box `sup` and direct evaluation over `sup` gives `V`, every value of both bounds of the returned
+p-box lies in `V` -/
+theorem mixed_within_image (φ : UFun → Rat → Rat) (hφ : Mono φ) (e : Expr) (pv : List Rat) (hg : Props.C08.GridOK pv)
+    (vars : List PB) (levels : List (List Rat)) (s : Strategy) (hs : s = .direct ∨ s = .endpoints)
+    (style : Option Style) (n : Option Nat) (sup : Box)
+    (hsup : ∀ row ∈ levels, ∀ box, cutBox pv vars row = .ok box → SubBox box sup)
+    (V : Val) (hV : direct φ e sup = .ok V) (P : Dss.PB) (h : imcPbox φ e pv vars levels s style n = .ok P) :
+    (∀ a ∈ P.left, V.lo ≤ a ∧ a ≤ V.hi) ∧ (∀ b ∈ P.right, V.lo ≤ b ∧ b ≤ V.hi) := by
+  obtain ⟨out, hout, hall, hst⟩ := imcPbox_is_stack φ e pv vars levels s style n P h
+  have hok := focalOK_of_stackOut pv out P hst
+  refine pbox_within_image pv hg out hok P hst V.lo V.hi ?_
+  intro v hv
+  obtain ⟨row, hrow, box, hbox, hb⟩ := forall₂_right hall v hv
+  have hsub := hsup row hrow box hbox
+  unfold b2b at hb
+  split at hb
+  · cases hb
+  · rcases hs with rfl | rfl
+    · exact support_within_image_direct φ hφ e box sup hsub v V hb hV
+    · exact support_within_image_endpoints φ hφ e box sup hsub v V hb hV
+
+/-! ### the grid of the source (`Params.p_values`, regenerated into `Pun.Gen.pValues`) satisfies the grid hypothesis -/
+
+theorem slicing_all_precise_source (φ : UFun → Rat → Rat) (e : Expr) (hp : PosPow e)
+    (vars : List PB) (hP : ∀ Q ∈ vars, Q.left = Q.right) (grid : List Rat) (s : Strategy) (style : Option Style)
+    (n : Option Nat) (P : Dss.PB) (h : slicingPbox φ e Gen.pValues vars grid s style n = .ok P) : P.left = P.right :=
+  slicing_all_precise φ e hp Gen.pValues Props.C08.pValues_gridOK vars hP grid s style n P h
+
+/-- non-vacuity of the hypotheses: a valid focal list, and precise inputs -/
+example : FocalOK [.ivl 1 2, .ivl 0 5] :=
+  ⟨by simp, by intro v hv; simp at hv; rcases hv with rfl | rfl <;> norm_num [Val.lo, Val.hi]⟩
+
+example : PosPow (.sub (.pow (.var 0) 2) (.un .exp (.var 1))) := ⟨⟨by norm_num, trivial⟩, trivial⟩
 
 end Pun.MixedUp
